@@ -95,6 +95,10 @@ pub struct RecCase {
   /// x = 1, 2, 3, ... and a threshold word they reach
   #[serde(default)]
   pub many: Option<(u16, u8)>,
+  /// a copy of one share with another evaluation point and its C (field 0) or D (field 1) chunk cut or
+  /// grown to a generated length, everything else equal: (which share, field, new length, put first)
+  #[serde(default)]
+  pub resized: Option<(u16, u8, u8, bool)>,
 }
 
 fn rec_strat(_t: Tier) -> BoxedStrategy<RecCase> {
@@ -106,9 +110,11 @@ fn rec_strat(_t: Tier) -> BoxedStrategy<RecCase> {
     proptest::option::weighted(0.3, (1u32..5, 1u8..6)),
     any::<bool>(),
     proptest::option::weighted(0.15, (any::<u16>(), 0u8..9)),
+    proptest::option::weighted(0.3, (any::<u16>(), 0u8..2, prop_oneof![Just(0u8), Just(1u8), Just(31u8), Just(33u8), 0u8..70], any::<bool>())),
   )
-    .prop_map(|(shares, same_x, special_x, force_threshold, honest_group, honest_first, many)| RecCase {
+    .prop_map(|(shares, same_x, special_x, force_threshold, honest_group, honest_first, many, resized)| RecCase {
       many,
+      resized,
       shares,
       same_x,
       special_x,
@@ -197,6 +203,30 @@ fn rec_oracle(c: &RecCase, st: &mut Stats) -> Result<(), String> {
       enc = hs;
     } else {
       enc.extend(hs);
+    }
+  }
+  // a sibling of one share (same tag, other point) whose C or D chunk has another length
+  if let (Some((which, field, newlen, first)), false) = (c.resized, enc.is_empty()) {
+    let t = enc[idx(which, enc.len())].clone();
+    if let Some(f) = layout::share_fields(&t) {
+      if f.s.len() >= 24 {
+        let mut s = t[f.s.clone()].to_vec();
+        s[..24].copy_from_slice(&crate::bigmodel::le24(&num_bigint::BigUint::from(0xABCDu32)));
+        let resize = |b: &[u8]| -> Vec<u8> {
+          let mut v = b.to_vec();
+          v.resize(newlen as usize, 0x5A);
+          v
+        };
+        let (cc, dd) = if field == 0 { (resize(&t[f.c.clone()]), t[f.d.clone()].to_vec()) } else { (t[f.c.clone()].to_vec(), resize(&t[f.d.clone()])) };
+        let thr = u32::from_le_bytes([t[0], t[1], t[2], t[3]]);
+        let sib = layout::encode_share(thr, &s, &cc, &dd, &t[f.j.clone()]);
+        if first {
+          enc.insert(0, sib);
+        } else {
+          enc.push(sib);
+        }
+        st.class(if field == 0 { "sibling-share-with-resized-C" } else { "sibling-share-with-resized-D" });
+      }
     }
   }
   let desc = || format!("shares {:?}", enc.iter().map(hex::encode).collect::<Vec<_>>());
